@@ -37,6 +37,34 @@ def linemap(pairs):
     return m
 
 
+def git_unquote(p):
+    """undo git's C-style quoting of unusual path names ("a\"b", octal escapes)"""
+    if not (len(p) >= 2 and p.startswith('"') and p.endswith('"')):
+        return p
+    out = bytearray()
+    i = 1
+    body = p[1:-1]
+    b = body.encode("utf-8", errors="surrogateescape")
+    i = 0
+    simple = {ord("n"): 10, ord("t"): 9, ord('"'): 34, ord("\\"): 92, ord("r"): 13, ord("a"): 7, ord("b"): 8,
+              ord("f"): 12, ord("v"): 11}
+    while i < len(b):
+        c = b[i]
+        if c == 92 and i + 1 < len(b):
+            d = b[i + 1]
+            if d in simple:
+                out.append(simple[d])
+                i += 2
+                continue
+            if 48 <= d <= 55 and i + 3 < len(b) + 0:
+                out.append(int(b[i + 1:i + 4], 8))
+                i += 4
+                continue
+        out.append(c)
+        i += 1
+    return out.decode("utf-8", errors="replace")
+
+
 class Divergent(Exception):
     """real git did not do what the generator's simple patch model expected (e.g. an unpredicted conflict);
     the behaviour is dropped, it is neither a pass nor a violation"""
@@ -526,12 +554,201 @@ class Run:
             out[f] = self.blame_cache[key]
         return out
 
+    def act_Mv(self, act):
+        dst = os.path.join(self.repo, self.world.path(act["g"]))
+        os.makedirs(os.path.dirname(dst), exist_ok=True)
+        self.wrapped(["mv", "--", self.parg(act["f"]), self.parg(act["g"])])
+
+    # ------------------------------------------------------------------ C09: blame output formats
+    @staticmethod
+    def _porcelain_map(text):
+        """final line number -> commit sha, from --porcelain / --line-porcelain / --incremental output"""
+        import re
+        m = {}
+        for ln in text.split("\n"):
+            g = re.match(r"^([0-9a-f]{40}) (\d+) (\d+)(?: (\d+))?$", ln)
+            if g:
+                sha, final = g.group(1), int(g.group(3))
+                n = int(g.group(4)) if g.group(4) else 1
+                for k in range(n):
+                    m.setdefault(final + k, sha)
+        return m
+
+    def proj_stats(self, git):
+        """git-ai stats <commit> --json and git's numstat for every commit made so far (cached per commit+notes)"""
+        out = []
+        nref = self.notes_ref()
+        for c in range(1, self.maxc + 1):
+            if c > git["nc"] or not self.cfg.get("stats"):
+                out.append({"has": False})
+                continue
+            key = ("st", self.c2sha[c], nref)
+            if key not in self.blame_cache:
+                sha = self.c2sha[c]
+                p = self.gitai_cmd(["stats", sha, "--json"])
+                rec = {"has": False}
+                try:
+                    j = json.loads(p.stdout.decode().strip().split("\n")[-1])
+                    ns = self.plain(["show", "--numstat", "--format=", "--no-renames", sha], check=False).stdout.decode()
+                    na = nd = 0
+                    for ln in ns.split("\n"):
+                        parts = ln.split("\t")
+                        if len(parts) >= 3 and parts[0].isdigit() and parts[1].isdigit():
+                            na += int(parts[0])
+                            nd += int(parts[1])
+                    tb = j.get("tool_model_breakdown", {})
+                    rec = {"has": True, "added": j["git_diff_added_lines"], "deleted": j["git_diff_deleted_lines"],
+                           "numstat_added": na, "numstat_deleted": nd, "ai_accepted": j["ai_accepted"],
+                           "human": j["human_additions"], "mixed": j["mixed_additions"], "ai": j["ai_additions"],
+                           "tools_ai_accepted": sum(t.get("ai_accepted", 0) for t in tb.values()),
+                           "tools_ai": sum(t.get("ai_additions", 0) for t in tb.values()),
+                           "tools_mixed": sum(t.get("mixed_additions", 0) for t in tb.values())}
+                except (ValueError, KeyError, IndexError):
+                    self.stats_failed = getattr(self, "stats_failed", 0) + 1
+                self.blame_cache[key] = rec
+            out.append(self.blame_cache[key])
+        return out
+
+    def proj_gblame(self, git):
+        """plain git blame of HEAD per model file (only where the work tree copy equals HEAD):
+        per line <<origin commit index, model file of the path there, line number there>>"""
+        import re
+        out = {f: [] for f in self.files}
+        hc = git["head"]
+        if hc == 0:
+            return out
+        for f in self.files:
+            t = git["tree"][hc - 1][f]
+            if not t or git["wt"][f] != t:
+                continue
+            key = ("gb", self.c2sha[hc], f)
+            if key not in self.blame_cache:
+                path = self.world.path(f)
+                p = self.plain(["-c", "core.quotePath=false", "blame", "--line-porcelain", "HEAD", "--", path], check=False)
+                rows = {}
+                cur = None
+                for ln in p.stdout.decode(errors="replace").split("\n"):
+                    g = re.match(r"^([0-9a-f]{40}) (\d+) (\d+)(?: \d+)?$", ln)
+                    if g:
+                        cur = [g.group(1), int(g.group(2)), int(g.group(3)), None]
+                        continue
+                    if cur is not None and ln.startswith("filename "):
+                        cur[3] = git_unquote(ln[len("filename "):])
+                        rows[cur[2]] = cur
+                        cur = None
+                res = []
+                for n in range(1, len(t) + 1):
+                    r = rows.get(n)
+                    if r is None:
+                        res.append([0, "none", 0])
+                    else:
+                        res.append([self.sha2c.get(r[0], 0), self.world.model_file(r[3]) or "none", r[1]])
+                self.blame_cache[key] = res
+            out[f] = self.blame_cache[key]
+        return out
+
+    def proj_fmt(self, git, blame):
+        """compare every git-ai blame output format with git's own blame and with the JSON output"""
+        import re
+        hc = git["head"]
+        if hc == 0 or not self.cfg.get("blamefmt"):
+            return True, []
+        problems = []
+        nref = self.notes_ref()
+        for f in self.files:
+            t = git["tree"][hc - 1][f]
+            if not t or git["wt"][f] != t:
+                continue
+            key = ("fmt", self.c2sha[hc], f, nref)
+            if key in self.blame_cache:
+                problems += self.blame_cache[key]
+                continue
+            mine = []
+            path = self.world.path(f)
+            parg = "./" + path if path.startswith("-") else path
+            gp = self.plain(["blame", "--line-porcelain", "HEAD", "--", path], check=False)
+            gmap = self._porcelain_map(gp.stdout.decode(errors="replace"))
+            n = len(t)
+            if len(gmap) != n:
+                mine.append("%s: git blame covers %d of %d lines" % (f, len(gmap), n))
+            for flag in ("--porcelain", "--line-porcelain", "--incremental"):
+                p = self.gitai_cmd(["blame", flag, parg])
+                amap = self._porcelain_map(p.stdout.decode(errors="replace"))
+                if p.returncode != 0 or amap != gmap:
+                    mine.append("%s: %s names other commits than git blame" % (f, flag))
+            ai_json = {i + 1 for i, a in enumerate(blame[f]) if a != "H"}
+            ranges = [None, (1, 1), (n, n), (max(1, n - 1), n), (1, max(1, n - 1))]
+            for rg in ranges:
+                args = ["blame"] + (["-L", "%d,%d" % rg] if rg else []) + [parg]
+                p = self.gitai_cmd(args)
+                lo, hi = rg if rg else (1, n)
+                seen = {}
+                for ln in p.stdout.decode(errors="replace").split("\n"):
+                    g = re.match(r"^\^?[0-9a-f]+ \((.*?)\s+\d{4}-\d{2}-\d{2} \d{2}:\d{2}:\d{2} [+-]\d{4}\s+(\d+)\) ", ln)
+                    if g:
+                        seen[int(g.group(2))] = g.group(1).strip()
+                if p.returncode != 0 or sorted(seen) != list(range(lo, hi + 1)):
+                    mine.append("%s: readable output for -L %s lists lines %s" % (f, rg, sorted(seen)))
+                    continue
+                ai_txt = {k for k, name in seen.items() if name == TOOL}
+                if ai_txt != {k for k in ai_json if lo <= k <= hi}:
+                    mine.append("%s: readable output for -L %s marks %s as AI, JSON %s" % (
+                        f, rg, sorted(ai_txt), sorted(k for k in ai_json if lo <= k <= hi)))
+                if rg:
+                    pj = self.gitai_cmd(["blame", "--json", "-L", "%d,%d" % rg, parg])
+                    try:
+                        j = json.loads(pj.stdout.decode())
+                        got = set()
+                        for spec in j.get("lines", {}):
+                            for tok in spec.split(","):
+                                a, b = (tok.split("-") + [tok])[:2] if "-" in tok else (tok, tok)
+                                got |= set(range(int(a), int(b) + 1))
+                    except ValueError:
+                        got = None
+                    if got != {k for k in ai_json if lo <= k <= hi}:
+                        mine.append("%s: --json -L %s lists %s, full JSON restricted gives %s" % (
+                            f, rg, got, sorted(k for k in ai_json if lo <= k <= hi)))
+            self.blame_cache[key] = mine
+            problems += mine
+        return (not problems), problems
+
+    def proj_leak(self):
+        """scan every blob reachable from the notes refs (whole history of each ref) for conversation text and
+        for the raw credential-like token"""
+        out = {"text": False, "secret": False}
+        key = self.notes_ref()
+        if getattr(self, "_leak_key", None) == key:
+            return dict(self._leak_val)
+        refs = self.plain(["for-each-ref", "--format=%(refname)", "refs/notes/"], check=False).stdout.decode().split()
+        # the shared notes ref and its remote-tracking copies; refs/notes/ai-stash is local-only and never pushed
+        refs = [r for r in refs if r == "refs/notes/ai" or r.startswith("refs/notes/ai-remote/")]
+        blobs = set()
+        for r in refs:
+            for c in self.plain(["rev-list", r], check=False).stdout.decode().split():
+                for ln in self.plain(["ls-tree", "-r", c], check=False).stdout.decode().split("\n"):
+                    parts = ln.split()
+                    if len(parts) >= 3 and parts[1] == "blob":
+                        blobs.add(parts[2])
+        seen = getattr(self, "_leak_seen", {})
+        for b in blobs:
+            if b not in seen:
+                data = self.cat(b) or b""
+                seen[b] = (MARKER.encode() in data, SECRET.encode() in data)
+            out["text"] = out["text"] or seen[b][0]
+            out["secret"] = out["secret"] or seen[b][1]
+        self._leak_seen = seen
+        self._leak_key, self._leak_val = key, dict(out)
+        return out
+
     def observe(self, with_blame=True):
         git = self.proj_git()
         wl, ini, extra = self.proj_wl_ini()
         notes, detail = self.proj_notes()
         blame = self.proj_blame(git) if with_blame else {f: [] for f in self.files}
-        return git, {"wl": wl, "ini": ini, "notes": notes, "blame": blame}, detail
+        fmtok, fmtproblems = self.proj_fmt(git, blame)
+        self.fmt_problems = getattr(self, "fmt_problems", []) + fmtproblems
+        return git, {"wl": wl, "ini": ini, "notes": notes, "blame": blame, "leak": self.proj_leak(),
+                     "fmtok": fmtok, "gblame": self.proj_gblame(git), "stats": self.proj_stats(git)}, detail
 
     def cleanup(self):
         shutil.rmtree(self.dir, ignore_errors=True)
@@ -700,7 +917,7 @@ def execute(gitai, scratch, cfg, behaviour, run_id):
         tcfg.pop("twin")
         tcfg.update(cfg["twin"])
         twin = Run(gitai, scratch, tcfg)
-    events = [{"ev": "reset", "run": run_id, "init": cfg.get("InitKind", "base")}]
+    events = [{"ev": "reset", "run": run_id, "init": cfg.get("InitKind", "base"), "storage": cfg.get("storage", "notes")}]
     info = {"run": run_id, "cfg": {k: cfg[k] for k in ("render", "filefam", "storage", "twin") if k in cfg},
             "steps": [], "notes_detail": {}, "panics": 0}
     try:
@@ -732,6 +949,7 @@ def execute(gitai, scratch, cfg, behaviour, run_id):
             info["notes_detail"] = {str(c): d for c, d in detail.items()}
         info["panics"] = run.panics + (twin.panics if twin else 0)
         info["blame_failed"] = run.blame_failed
+        info["fmt_problems"] = sorted(set(getattr(run, "fmt_problems", [])))[:10]
         info["log"] = [(" ".join(a), rc, err) for a, rc, err in run.log]
         if twin is not None:
             info["twin_log"] = [(" ".join(a), rc, err) for a, rc, err in twin.log]
